@@ -448,6 +448,9 @@ def all_small_indices(n_entries_max=2):
 
 
 def replay_case(ctx, case):
+    if case.get('op') == 'utpclass-table':
+        import utpcheck
+        return utpcheck.replay(case)
     if case['op'] == 'getitem':
         return getitem_fails(ctx, case)
     if case['op'] == 'setitem':
@@ -458,6 +461,8 @@ def replay_case(ctx, case):
 
 
 def run(ctx):
+    import utpcheck
+    utpcheck.run(ctx, 'C13')
     rng = ctx.rng
 
     def do(case, f):
